@@ -5,7 +5,7 @@ LEVEL = "model_checking"
 MANIFEST = {
     "engine": "tlc LoaderJail (tree + requests) + vhjail c40 (recording billy fs, real loader and HTTP backend) + tlc LoaderJailTrace",
     "technique": "the sandbox tree (repositories inside/outside the root, relative/absolute gitfiles, symlinked directories) and every request path are defined and enumerated in TLA+; the real FilesystemLoader (strict / non-strict) and the backend HTTP handler are run on the materialised tree; TLC resolves the root of every returned storage and every successful filesystem request (lexical and symlink readings of PathJail) and checks they are inside the root; the served repository identity is a second observation",
-    "text": "Exhaustive over request paths of <= 2 (quick) / <= 3 (thorough, sampled above the budget) tokens over 26 path tokens (repositories, gitfiles, symlinks, '..', '.', empty, .git, encoded dots, host-absolute prefix) x {relative, leading slash} x {Load, Load strict, HTTP GET <path>/HEAD} on one tree with 6 repositories, 5 gitfiles and 6 symlinks.",
+    "text": "Exhaustive over request paths of <= 2 (quick) / <= 3 (thorough, sampled above the budget) tokens over 33 path tokens (repositories, gitfiles, symlinks, '..', '.', empty, .git, encoded dots, host-absolute prefixes: sandbox origin, the root itself, root + '/..', root + '-private') x {relative, leading slash} x {Load, Load strict, HTTP GET <path>/HEAD} on one tree with 8 repositories (incl. a sibling whose directory name extends the root's name), 7 gitfiles (incl. absolute ones that start with the root's host path and leave it) and 6 symlinks.",
     "note": "The loader under test is rooted on osfs (BoundOS, the only OS filesystem of billy v6); containment that BoundOS itself provides is part of what is observed. One fixed tree; gitfile contents are the five listed shapes.",
 }
 
@@ -50,7 +50,7 @@ def run(ctx):
         raise vlib.ToolingError("C40: %d verdicts for %s records" % (nver, rep.get("traces")))
     if not rep.get("extra", {}).get("c40_served_inside_identity"):
         raise vlib.ToolingError("C40: no request was served at all (vacuous run)")
-    ctx.cov["bounds"] = {"path_tokens": 26, "max_tokens": mr, "modes": ["load", "load-strict", "http"], "tree_entries": 17}
+    ctx.cov["bounds"] = {"path_tokens": 33, "max_tokens": mr, "modes": ["load", "load-strict", "http"], "tree_entries": 21}
     ctx.cov["exhaustive"] = True
     ctx.cov["rule"] = ("every request = token sequence of spec/rules/LoaderJail.tla is one TLC state; each is rendered with and without a leading slash "
                        "and given to Load / strict Load / the HTTP handler; distinct = (request, slash, mode); %d outcomes judged by TLC, %d rejected" % (nver, nbad))
